@@ -129,7 +129,7 @@ def gen_runs(rng, tier, cleanups=("n",), namings=None, sfxs=(b"log",), bg=False,
     lim = rng.choice([0, 4, 10, 25])
     crit = rng.choice(crits or ["s%d" % lim, "s%d" % lim, "as", "xm%d" % lim])
     cleanup = rng.choice(cleanups)
-    base = rng.choice([b"a", b"app", b""])
+    base = rng.choice([b"a", b"app", b"", b"a.restart-7"])
     disc = rng.choice([None, None, b"d1"])
     sfx = rng.choice(sfxs)
     append0 = rng.random() < 0.5
